@@ -71,9 +71,21 @@ def build_harness():
 # ---------------------------------------------------------------------------------------------
 # TLC
 # ---------------------------------------------------------------------------------------------
-def run_tlc(module, cfg, use_cache=True, extra_args=(), env_extra=None, timeout=1500, workers=None, tag=None):
+def materialize_cfg(stp):
+    """A step may carry its configuration as text (generated families of configurations)."""
+    if "cfg_text" in stp:
+        d = os.path.join(WORK, "cfg")
+        os.makedirs(d, exist_ok=True)
+        path = os.path.join(d, stp["cfg"])
+        if not os.path.exists(path) or open(path).read() != stp["cfg_text"]:
+            open(path, "w").write(stp["cfg_text"])
+        return path
+    return os.path.join(SPEC, stp["cfg"])
+
+
+def run_tlc(module, cfg, use_cache=True, extra_args=(), env_extra=None, timeout=1500, workers=None, tag=None, cfg_path=None):
     os.makedirs(os.path.join(WORK, "tlc"), exist_ok=True)
-    cfg_path = os.path.join(SPEC, cfg)
+    cfg_path = cfg_path or os.path.join(SPEC, cfg)
     key = spec_hash(open(cfg_path).read() + module + " ".join(extra_args) + json.dumps(env_extra or {}, sort_keys=True))
     name = tag or (module + "." + os.path.splitext(cfg)[0])
     out = os.path.join(WORK, "tlc", "%s.%s.out" % (name, key))
@@ -86,7 +98,7 @@ def run_tlc(module, cfg, use_cache=True, extra_args=(), env_extra=None, timeout=
     metadir = os.path.join(WORK, "tlc", "meta.%s.%d" % (name, os.getpid()))
     cmd = ["timeout", str(timeout), "java", "-XX:+UseParallelGC", "-Xmx8g", "-cp", TLA_CP, "tlc2.TLC",
            "-workers", str(workers or TLC_WORKERS), "-metadir", metadir, "-cleanup", "-noGenerateSpecTE",
-           "-config", cfg] + list(extra_args) + [module + ".tla"]
+           "-config", cfg_path] + list(extra_args) + [module + ".tla"]
     env = dict(os.environ)
     env.update(env_extra or {})
     t0 = time.time()
@@ -344,9 +356,13 @@ def main(argv):
         steps = []
         for stp in plan[tier]:
             st = {"props": [prop]}
-            if stp["type"] == "tlc-replay":
-                st["tlc"] = run_tlc(stp["module"], stp["cfg"], use_cache=os.environ.get("VERIF_NO_TLC_CACHE") is None)
+            if stp["type"] in ("tlc-replay", "tlc-only"):
+                st["tlc"] = run_tlc(stp["module"], stp["cfg"], use_cache=os.environ.get("VERIF_NO_TLC_CACHE") is None, cfg_path=materialize_cfg(stp))
                 log("TLC %s/%s: %s distinct states, %s generated, %.1fs%s" % (stp["module"], stp["cfg"], st["tlc"]["distinct"], st["tlc"]["states"], st["tlc"]["wall_s"], " (cached)" if st["tlc"]["cached"] else ""))
+                if stp["type"] == "tlc-only":
+                    st["replay"] = {"cases_run": 0, "counts": {}, "samples": {}, "sigs": {}, "kept": []}
+                    steps.append(st)
+                    continue
                 tr = time.time()
                 procs = run_replay(st["tlc"]["out"], [prop], "%s.%s" % (prop, os.path.splitext(stp["cfg"])[0]), stp.get("extra", ()))
                 st["replay"] = merge_replay(procs, st["tlc"]["out"], [prop])
